@@ -397,4 +397,388 @@ theorem structure_preserved (s : Schema) (h : WF s) {j : Json} (hl : Lay true (m
     PResult.opt (parseSchema j) = some s := by
   rw [layout_invariant hl, marshal_parse s h]; rfl
 
+/-! ## Malformed documents are rejected -/
+
+/-- C14 "malformed JSON yields an error", non-schema top level (also at every position where a
+schema is expected: items, values, field type, union branch — see `malformed_nested`,
+`malformed_branch`): `null`, `true`/`false` and numbers are not schemas. -/
+theorem malformed_toplevel :
+    parseSchema .null = .error .unexpectedToken ∧ (∀ b, parseSchema (.bool b) = .error .unexpectedToken) ∧
+    (∀ n, parseSchema (.num n) = .error .unexpectedToken) ∧
+    (∀ s, parseSchema (.numRaw s) = .error .unexpectedToken) := by
+  simp [parseSchema]
+
+/-- the JSON kind of `v` does not fit the Go type of the known attribute `k` -/
+def badKind (k : String) (v : Json) : Bool :=
+  if k = "type" ∨ k = "logicalType" ∨ k = "name" ∨ k = "namespace" then
+    (match v with | .str _ | .null => false | _ => true)
+  else if k = "fields" ∨ k = "symbols" then (match v with | .arr _ | .null => false | _ => true)
+  else if k = "items" ∨ k = "values" then (match v with | .str _ | .arr _ | .obj _ => false | _ => true)
+  else if k = "size" then
+    (match v with | .num n => !(decide (minInt64 ≤ n ∧ n ≤ maxInt64)) | .null => false | _ => true)
+  else false
+
+theorem badKind_fails (k : String) (v : Json) (h : badKind k v = true) : PResult.opt (decObj k v) = none := by
+  unfold badKind at h
+  unfold decObj decodeAttr
+  split at h
+  · rename_i hk
+    rcases hk with hk | hk | hk | hk <;> subst hk <;> cases v <;> simp_all [decString, bind, Except.bind]
+  · split at h
+    · rename_i hk
+      rcases hk with hk | hk <;> subst hk <;> cases v <;>
+        simp_all [decStrings, parseFields, bind, Except.bind]
+    · split at h
+      · rename_i hk
+        rcases hk with hk | hk <;> subst hk <;> cases v <;> simp_all [parseSchema, bind, Except.bind]
+      · split at h
+        · rename_i hk
+          subst hk
+          cases v <;> simp_all [decInt, bind, Except.bind]
+          rename_i n
+          split <;> simp_all
+          rename_i heq
+          split at heq
+          · rename_i hr; omega
+          · simp at heq
+        · simp at h
+
+/-- C14 "malformed JSON yields an error", wrong kind for a known attribute: an object with a member
+(at any position, whatever the other members are) whose value has the wrong JSON kind — e.g.
+`"size":"4"`, `"size":4.0`, `"size":9223372036854775808`, `"fields":{}`, `"name":1`,
+`"type":{"type":"array",…}` (the attribute `type` of an object must be a string), `"items":null` —
+is rejected. -/
+theorem malformed_attr (ms : List (String × Json)) (k : String) (v : Json) (hm : (k, v) ∈ ms)
+    (hb : badKind k v = true) : PResult.opt (parseSchema (.obj ms)) = none := by
+  have := fold_member_error decObj applyAttr ms k v hm (badKind_fails k v hb) [] SchemaObject.zero
+  simp only [parseSchema, pOM_eq_fold]
+  cases hf : foldMembers decObj applyAttr [] SchemaObject.zero ms <;> simp_all [bind, Except.bind]
+
+/-- an invalid schema in `items` / `values` position makes the enclosing schema invalid -/
+theorem malformed_nested (ms : List (String × Json)) (k : String) (v : Json) (hm : (k, v) ∈ ms)
+    (hk : k = "items" ∨ k = "values") (hv : PResult.opt (parseSchema v) = none) :
+    PResult.opt (parseSchema (.obj ms)) = none := by
+  have hd : PResult.opt (decObj k v) = none := by
+    unfold decObj decodeAttr
+    cases hp : parseSchema v <;> rcases hk with hk | hk <;> subst hk <;> simp_all [bind, Except.bind]
+  have := fold_member_error decObj applyAttr ms k v hm hd [] SchemaObject.zero
+  simp only [parseSchema, pOM_eq_fold]
+  cases hf : foldMembers decObj applyAttr [] SchemaObject.zero ms <;> simp_all [bind, Except.bind]
+
+theorem parseSchemas_fails (xs : List Json) (x : Json) (hx : x ∈ xs) (hv : PResult.opt (parseSchema x) = none) :
+    PResult.opt (parseSchemas xs) = none := by
+  induction xs with
+  | nil => simp at hx
+  | cons a as ih =>
+    simp only [parseSchemas]
+    cases ha : parseSchema a with
+    | error e => simp [bind, Except.bind]
+    | ok s =>
+      rcases List.mem_cons.1 hx with h | h
+      · subst h; simp [ha] at hv
+      · have := ih h
+        cases hr : parseSchemas as <;> simp_all [bind, Except.bind]
+
+/-- an invalid union branch makes the union invalid -/
+theorem malformed_branch (xs : List Json) (x : Json) (hx : x ∈ xs) (hv : PResult.opt (parseSchema x) = none) :
+    PResult.opt (parseSchema (.arr xs)) = none := by
+  have := parseSchemas_fails xs x hx hv
+  simp only [parseSchema]
+  cases hr : parseSchemas xs <;> simp_all [bind, Except.bind]
+
+/-- C14 "malformed JSON yields an error", duplicate member: an object in schema position with two
+members of the same name (known or unknown) is rejected, whatever their values. -/
+theorem malformed_duplicate (ms : List (String × Json)) (h : ¬ (ms.map (·.1)).Nodup) :
+    PResult.opt (parseSchema (.obj ms)) = none := by
+  simp only [parseSchema, pOM_eq_fold]
+  cases hf : foldMembers decObj applyAttr [] SchemaObject.zero ms with
+  | error e => simp [bind, Except.bind]
+  | ok o => exact absurd (fold_ok_nodup decObj applyAttr ms [] _ _ hf).1 h
+
+/-- … and a duplicate member name anywhere inside the value of an unknown attribute as well -/
+theorem malformed_duplicate_in_unknown (ms : List (String × Json)) (k : String) (v : Json) (hm : (k, v) ∈ ms)
+    (hk : k ∉ knownKeys) (hv : v.dupFree = false) : PResult.opt (parseSchema (.obj ms)) = none := by
+  have hd : PResult.opt (decObj k v) = none := by
+    simp only [knownKeys, objectKeys, List.mem_cons, List.not_mem_nil, or_false, not_or] at hk
+    simp [decObj, decodeAttr, hk, hv]
+  have := fold_member_error decObj applyAttr ms k v hm hd [] SchemaObject.zero
+  simp only [parseSchema, pOM_eq_fold]
+  cases hf : foldMembers decObj applyAttr [] SchemaObject.zero ms <;> simp_all [bind, Except.bind]
+
+
+theorem parseFieldList_fails (xs : List Json) (x : Json) (hx : x ∈ xs) (hv : PResult.opt (parseField x) = none) :
+    PResult.opt (parseFieldList xs) = none := by
+  induction xs with
+  | nil => simp at hx
+  | cons a as ih =>
+    simp only [parseFieldList]
+    cases ha : parseField a with
+    | error e => simp [bind, Except.bind]
+    | ok s =>
+      rcases List.mem_cons.1 hx with h | h
+      · subst h; simp [ha] at hv
+      · have := ih h
+        cases hr : parseFieldList as <;> simp_all [bind, Except.bind]
+
+/-- an invalid record field (wrong kind, duplicate member, invalid type) makes the record invalid -/
+theorem malformed_field (ms : List (String × Json)) (fs : List Json) (f : Json)
+    (hm : ("fields", Json.arr fs) ∈ ms) (hf : f ∈ fs) (hv : PResult.opt (parseField f) = none) :
+    PResult.opt (parseSchema (.obj ms)) = none := by
+  have hd : PResult.opt (decObj "fields" (.arr fs)) = none := by
+    have := parseFieldList_fails fs f hf hv
+    cases hr : parseFieldList fs <;> simp_all [decObj, decodeAttr, parseFields, bind, Except.bind]
+  have := fold_member_error decObj applyAttr ms _ _ hm hd [] SchemaObject.zero
+  simp only [parseSchema, pOM_eq_fold]
+  cases hf : foldMembers decObj applyAttr [] SchemaObject.zero ms <;> simp_all [bind, Except.bind]
+
+/-- a record field object with a repeated member name is invalid; so is a field that is not an
+object (or `null`), and a field whose `type` is not a schema -/
+theorem malformed_field_duplicate (ms : List (String × Json)) (h : ¬ (ms.map (·.1)).Nodup) :
+    PResult.opt (parseField (.obj ms)) = none := by
+  simp only [parseField, pFM_eq_fold]
+  cases hf : foldMembers decFld applyFAttr [] SchemaField.zero ms with
+  | error e => rfl
+  | ok o => exact absurd (fold_ok_nodup decFld applyFAttr ms [] _ _ hf).1 h
+
+/-! ## What parsing produces is well-formed -/
+
+/-- invariant of the decoding loop on a document whose attributes fit the type `t` -/
+def Inv (t : String) (o : SchemaObject) : Prop :=
+  (o.type = "" ∨ o.type = t) ∧ (t = "record" ∨ o.fields = []) ∧ (t = "array" ∨ o.items = Schema.zero) ∧
+  (t = "map" ∨ o.values = Schema.zero) ∧ (t = "fixed" ∨ o.size = 0) ∧ (t = "enum" ∨ o.symbols = []) ∧
+  (minInt64 ≤ o.size ∧ o.size ≤ maxInt64) ∧
+  SchemaField.wfList o.fields = true ∧ o.items.wf = true ∧ o.values.wf = true
+
+theorem zero_wf : Schema.zero.wf = true := by decide
+theorem range0 : minInt64 ≤ 0 ∧ 0 ≤ maxInt64 := by decide
+theorem decInt_range {a : String} {v : Json} {n : Int} (h : decInt a v = .ok n) : minInt64 ≤ n ∧ n ≤ maxInt64 := by
+  cases v <;> simp [decInt] at h
+  · subst h; exact range0
+  · split at h <;> simp at h
+    subst h; assumption
+
+theorem step_inv (t k : String) (v : Json) (a : Option Attr) (o : SchemaObject)
+    (hd : decObj k v = .ok a)
+    (hfit : attrFit t k v (fun _ => v.isSchemaDoc) (fun _ => v.isFieldsDoc) = true)
+    (ihS : ∀ x, parseSchema v = .ok x → v.isSchemaDoc = true → x.wf = true)
+    (ihF : ∀ fs, parseFields v = .ok fs → v.isFieldsDoc = true → SchemaField.wfList fs = true)
+    (hinv : Inv t o) : Inv t (applyAttr a o) := by
+  obtain ⟨ot, ol, on, ons, f, i, vv, sz, y⟩ := o
+  unfold decObj decodeAttr at hd
+  unfold attrFit at hfit
+  simp only [Inv, SchemaObject.type, SchemaObject.fields, SchemaObject.items, SchemaObject.values,
+    SchemaObject.size, SchemaObject.symbols] at hinv ⊢
+  repeat' split at hd
+  all_goals try simp only [bind, Except.bind] at hd
+  all_goals try split at hd
+  all_goals try simp at hd
+  all_goals try subst hd
+  all_goals simp_all [applyAttr, zero_wf, range0, SchemaField.wfList]
+  · rename_i heq; cases v <;> simp_all [decString]
+  · rename_i heq; exact decInt_range heq
+
+theorem fstep_inv (k : String) (v : Json) (a : Option FAttr) (f : SchemaField)
+    (hd : decFld k v = .ok a) (hfit : fieldAttrFit k v (fun _ => v.isSchemaDoc) = true)
+    (ihS : ∀ x, parseSchema v = .ok x → v.isSchemaDoc = true → x.wf = true)
+    (hinv : f.type.wf = true) : (applyFAttr a f).type.wf = true := by
+  obtain ⟨n, ft⟩ := f
+  unfold decFld decodeFAttr at hd
+  unfold fieldAttrFit at hfit
+  repeat' split at hd
+  all_goals try simp only [bind, Except.bind] at hd
+  all_goals try split at hd
+  all_goals try simp at hd
+  all_goals try subst hd
+  all_goals simp_all [applyFAttr, SchemaField.type]
+
+theorem applyAttr_type_other {k : String} {v : Json} {a : Option Attr} (hd : decObj k v = .ok a)
+    (hk : k ≠ "type") (o : SchemaObject) : (applyAttr a o).type = o.type := by
+  cases a with
+  | none => rfl
+  | some a =>
+    have := decodeAttr_key hd
+    cases o; cases a <;> simp_all [applyAttr, SchemaObject.type, Attr.key]
+
+theorem applyAttr_type_set {t : String} {v : Json} {a : Option Attr} (hd : decObj "type" v = .ok a)
+    (hfit : attrFit t "type" v (fun _ => v.isSchemaDoc) (fun _ => v.isFieldsDoc) = true) (o : SchemaObject) :
+    (applyAttr a o).type = t := by
+  cases o
+  cases v <;> simp_all [attrFit, decObj, decodeAttr, decString, bind, Except.bind]
+  subst hd; simp [applyAttr, SchemaObject.type]
+
+theorem type_final (t : String) (ms : List (String × Json)) (seen : List String) (o o' : SchemaObject)
+    (h : parseObjMembers seen o ms = .ok o') (hfit : Json.membersFit t ms = true) :
+    o'.type = if "type" ∈ ms.map (·.1) then t else o.type := by
+  induction ms generalizing seen o with
+  | nil => simp [parseObjMembers] at h; simp [h]
+  | cons m ms ih =>
+    obtain ⟨k, v⟩ := m
+    simp only [Json.membersFit, Bool.and_eq_true] at hfit
+    simp only [parseObjMembers] at h
+    split at h
+    · simp at h
+    · cases hd : decodeAttr k v (fun _ => parseSchema v) (fun _ => parseFields v) with
+      | error e => simp [hd, bind, Except.bind] at h
+      | ok a =>
+        simp only [hd, bind, Except.bind] at h
+        have := ih _ _ h hfit.2
+        rw [this]
+        by_cases hk : k = "type"
+        · subst hk
+          simp [applyAttr_type_set hd hfit.1]
+        · have hk' : ¬ "type" = k := fun h => hk h.symm
+          rw [applyAttr_type_other hd hk]
+          by_cases hm : "type" ∈ ms.map (·.1)
+          · rw [if_pos hm, if_pos (by simp [hm])]
+          · rw [if_neg hm, if_neg (by simp [hm, hk'])]
+
+theorem typeOfMembers_absent (ms : List (String × Json)) (h : "type" ∉ ms.map (·.1)) : typeOfMembers ms = "" := by
+  have : ms.lookup "type" = none := by
+    induction ms with
+    | nil => rfl
+    | cons m ms ih =>
+      obtain ⟨k, v⟩ := m
+      simp only [List.map_cons, List.mem_cons, not_or] at h
+      have hk : ("type" == k) = false := by simpa using h.1
+      simp [List.lookup, hk, ih h.2]
+  simp [typeOfMembers, this]
+
+theorem hoist_wf (t : String) (o : SchemaObject) (hinv : Inv t o) (ht : o.type = t) : (hoist o).wf = true := by
+  obtain ⟨ot, ol, on, ons, f, i, vv, sz, y⟩ := o
+  simp only [Inv, SchemaObject.type, SchemaObject.fields, SchemaObject.items, SchemaObject.values,
+    SchemaObject.size, SchemaObject.symbols] at hinv ht
+  subst ht
+  simp only [hoist, Schema.wf, SchemaObject.attrsFit, SchemaObject.wfKids, SchemaObject.type, SchemaObject.fields,
+    SchemaObject.items, SchemaObject.values, SchemaObject.size, SchemaObject.symbols, List.isEmpty_nil,
+    Bool.and_eq_true, Bool.or_eq_true, beq_iff_eq, List.isEmpty_iff, Schema.marshalsEmpty_iff, decide_eq_true_eq]
+  simp_all
+
+theorem inv_zero (t : String) : Inv t SchemaObject.zero := by
+  simp [Inv, SchemaObject.zero, SchemaObject.type, SchemaObject.fields, SchemaObject.items, SchemaObject.values,
+    SchemaObject.size, SchemaObject.symbols, zero_wf, range0, SchemaField.wfList]
+
+mutual
+theorem pw_schema : (j : Json) → ∀ s, parseSchema j = .ok s → j.isSchemaDoc = true → s.wf = true
+  | .null, s, h, _ | .bool _, s, h, _ | .num _, s, h, _ | .numRaw _, s, h, _ => by simp [parseSchema] at h
+  | .str t, s, h, hg => by
+    simp only [parseSchema, Except.ok.injEq] at h
+    subst h
+    simpa [Schema.wf, Json.isSchemaDoc] using hg
+  | .arr [], s, h, hg => by simp [Json.isSchemaDoc] at hg
+  | .arr (x :: xs), s, h, hg => by
+    simp only [parseSchema] at h
+    cases hp : parseSchemas (x :: xs) with
+    | error e => simp [hp, bind, Except.bind] at h
+    | ok ss =>
+      simp only [hp, bind, Except.bind, Except.ok.injEq] at h
+      subst h
+      have hg' : Json.isSchemaDocs (x :: xs) = true := by simpa [Json.isSchemaDoc, Json.isSchemaDocs] using hg
+      have := pw_schemas (x :: xs) ss hp hg'
+      cases ss with
+      | nil =>
+        simp only [parseSchemas] at hp
+        cases h1 : parseSchema x <;> cases h2 : parseSchemas xs <;> simp [h1, h2, bind, Except.bind] at hp
+      | cons u us => simp [Schema.wf, this]
+  | .obj ms, s, h, hg => by
+    simp only [parseSchema] at h
+    cases hp : parseObjMembers [] SchemaObject.zero ms with
+    | error e => simp [hp, bind, Except.bind] at h
+    | ok o =>
+      simp only [hp, bind, Except.bind, Except.ok.injEq] at h
+      subst h
+      simp only [Json.isSchemaDoc] at hg
+      have hinv := pw_members (typeOfMembers ms) ms [] _ o hp hg (inv_zero _)
+      have ht := type_final (typeOfMembers ms) ms [] _ o hp hg
+      apply hoist_wf (typeOfMembers ms) o hinv
+      rw [ht]
+      split
+      · rfl
+      · rename_i hn; simp [SchemaObject.zero, SchemaObject.type, typeOfMembers_absent ms hn]
+theorem pw_schemas : (xs : List Json) → ∀ ss, parseSchemas xs = .ok ss → Json.isSchemaDocs xs = true →
+    Schema.wfList ss = true
+  | [], ss, h, _ => by simp [parseSchemas] at h; subst h; rfl
+  | x :: xs, ss, h, hg => by
+    simp only [parseSchemas] at h
+    simp only [Json.isSchemaDocs, Bool.and_eq_true] at hg
+    cases h1 : parseSchema x with
+    | error e => simp [h1, bind, Except.bind] at h
+    | ok s =>
+      cases h2 : parseSchemas xs with
+      | error e => simp [h1, h2, bind, Except.bind] at h
+      | ok ss' =>
+        simp only [h1, h2, bind, Except.bind, Except.ok.injEq] at h
+        subst h
+        simp [Schema.wfList, pw_schema x s h1 hg.1, pw_schemas xs ss' h2 hg.2]
+theorem pw_members (t : String) : (ms : List (String × Json)) → ∀ seen o o', parseObjMembers seen o ms = .ok o' →
+    Json.membersFit t ms = true → Inv t o → Inv t o'
+  | [], seen, o, o', h, _, hinv => by simp [parseObjMembers] at h; subst h; exact hinv
+  | (k, v) :: ms, seen, o, o', h, hg, hinv => by
+    simp only [Json.membersFit, Bool.and_eq_true] at hg
+    simp only [parseObjMembers] at h
+    split at h
+    · simp at h
+    · cases hd : decodeAttr k v (fun _ => parseSchema v) (fun _ => parseFields v) with
+      | error e => simp [hd, bind, Except.bind] at h
+      | ok a =>
+        simp only [hd, bind, Except.bind] at h
+        exact pw_members t ms _ _ o' h hg.2
+          (step_inv t k v a o hd hg.1 (fun x hx hd => pw_schema v x hx hd) (fun fs hx hd => pw_fields v fs hx hd) hinv)
+theorem pw_fields : (j : Json) → ∀ fs, parseFields j = .ok fs → j.isFieldsDoc = true → SchemaField.wfList fs = true
+  | .null, fs, _, hg | .bool _, fs, _, hg | .num _, fs, _, hg | .numRaw _, fs, _, hg | .str _, fs, _, hg
+  | .obj _, fs, _, hg => by simp [Json.isFieldsDoc] at hg
+  | .arr xs, fs, h, hg => by
+    simp only [parseFields] at h
+    simp only [Json.isFieldsDoc] at hg
+    exact pw_fieldList xs fs h hg
+theorem pw_fieldList : (xs : List Json) → ∀ fs, parseFieldList xs = .ok fs → Json.isFieldDocs xs = true →
+    SchemaField.wfList fs = true
+  | [], fs, h, _ => by simp [parseFieldList] at h; subst h; rfl
+  | x :: xs, fs, h, hg => by
+    simp only [parseFieldList] at h
+    simp only [Json.isFieldDocs, Bool.and_eq_true] at hg
+    cases h1 : parseField x with
+    | error e => simp [h1, bind, Except.bind] at h
+    | ok f =>
+      cases h2 : parseFieldList xs with
+      | error e => simp [h1, h2, bind, Except.bind] at h
+      | ok fs' =>
+        simp only [h1, h2, bind, Except.bind, Except.ok.injEq] at h
+        subst h
+        have := pw_field x f h1 hg.1
+        obtain ⟨n, ft⟩ := f
+        simp only [SchemaField.type] at this
+        simp [SchemaField.wfList, this, pw_fieldList xs fs' h2 hg.2]
+theorem pw_field : (j : Json) → ∀ f, parseField j = .ok f → j.isFieldDoc = true → f.type.wf = true
+  | .null, f, _, hg | .bool _, f, _, hg | .num _, f, _, hg | .numRaw _, f, _, hg | .str _, f, _, hg
+  | .arr _, f, _, hg => by simp [Json.isFieldDoc] at hg
+  | .obj ms, f, h, hg => by
+    simp only [parseField] at h
+    simp only [Json.isFieldDoc] at hg
+    exact pw_fmembers ms [] _ f h hg (by simp [SchemaField.zero, SchemaField.type, zero_wf])
+theorem pw_fmembers : (ms : List (String × Json)) → ∀ seen f f', parseFieldMembers seen f ms = .ok f' →
+    Json.fieldMembersFit ms = true → f.type.wf = true → f'.type.wf = true
+  | [], seen, f, f', h, _, hinv => by simp [parseFieldMembers] at h; subst h; exact hinv
+  | (k, v) :: ms, seen, f, f', h, hg, hinv => by
+    simp only [Json.fieldMembersFit, Bool.and_eq_true] at hg
+    simp only [parseFieldMembers] at h
+    split at h
+    · simp at h
+    · cases hd : decodeFAttr k v (fun _ => parseSchema v) with
+      | error e => simp [hd, bind, Except.bind] at h
+      | ok a =>
+        simp only [hd, bind, Except.bind] at h
+        exact pw_fmembers ms _ _ f' h hg.2 (fstep_inv k v a f hd hg.1 (fun x hx hd => pw_schema v x hx hd) hinv)
+end
+
+/-- C14 "all schema values produced by parsing": what `SchemaFromString` returns for a document in
+the grammar is well-formed … -/
+theorem parse_wf (j : Json) (s : Schema) (h : parseSchema j = .ok s) (hg : j.isSchemaDoc = true) : WF s :=
+  pw_schema j s h hg
+
+/-- … hence serialising it and parsing again gives the same value: parse ∘ marshal ∘ parse = parse. -/
+theorem parse_marshal_parse (j : Json) (s : Schema) (h : parseSchema j = .ok s) (hg : j.isSchemaDoc = true) :
+    parseSchema (marshalSchema s) = parseSchema j := by
+  rw [h]; exact marshal_parse s (parse_wf j s h hg)
+
+
 end Avro.C14
